@@ -13,6 +13,7 @@ Require Import Selen.Model.Dom Selen.Model.Views Selen.Model.PropDefs Selen.Mode
 Require Import Selen.Model.LP Selen.Model.Limits Selen.Generated.Consts.
 Require Import Selen.Model.Gac Selen.Model.Props.AllDiff.
 Require Import Selen.Model.B64 Selen.Model.FloatInterval Selen.Model.CtxFloat.
+Require Import Selen.Model.FloatStore Selen.Model.FloatProps Selen.Model.FloatSearch Selen.Model.FloatDispatch.
 Require Import Selen.Model.Api Selen.Model.Lower Selen.Model.Routes.
 Require Import Selen.Model.Checked.
 Require Import Selen.Model.Sudoku.
@@ -48,6 +49,9 @@ Extraction "selen_model.ml"
   fi_is_empty fi_is_fixed fi_size fi_step_count fi_round_to_step fi_floor_to_step fi_ceil_to_step fi_intersect fi_intersects
   fi_assign fi_remove_below fi_remove_above fi_mid fi_save fi_restore tsmin_ff tsmax_ff tsmin_fi tsmax_fi ceil_as_i32 floor_as_i32
   tsmin_range_f tsmax_range_f fop_apply fop_run magn_b magn_op_b
+  mk_flin_eq mk_flin_le mk_flin_ne mk_flin_eq_reif mk_flin_le_reif mk_flin_ne_reif mk_fleq mk_flt mk_fgeq mk_fgt mk_feq mk_ilin_le_mixed
+  fpropagate_all fsolve_first fminimize_seq fall_assigned fsolution
+  root_lp_gate fast_path_consulted dispatch lp_rows lp_vars
   lin_in_rangeb cons_in_rangeb expr_in_rangeb emag boundedb add_in_rangeb sum_in_rangeb view_in_rangeb vset_in_rangeb
   cprune_lin_eq cprune_lin_le cprune_lin_ne cprune_lin_eq_reif cprune_lin_le_reif cprune_lin_ne_reif cprune_add cprune_sum cvbnd cvset
   parse_string solve_sudoku_exec solve_sudoku_string_exec solve_general_exec valid_sudokub agreesb clues_okb
